@@ -32,11 +32,11 @@ class ClaimsRegistry:
                 raise InvalidClaimError(claim_name)
 
             option_value = option.get("value")
-            if option_value is not None and value != option_value:
+            if option_value is not None and not _same_value(value, option_value):
                 raise InvalidClaimError(claim_name)
 
             option_values = option.get("values")
-            if option_values is not None and value not in option_values:
+            if option_values is not None and not any(_same_value(value, v) for v in option_values):
                 raise InvalidClaimError(claim_name)
 
     def validate(self, claims: dict[str, Any]) -> None:
@@ -103,7 +103,7 @@ class JWTClaimsRegistry(ClaimsRegistry):
         else:
             aud_list = [value]
 
-        if not any([v in aud_list for v in option_values]):
+        if not any([_same_value(a, v) for a in aud_list for v in option_values]):
             raise InvalidClaimError("aud")
 
     def validate_exp(self, value: int) -> None:
@@ -152,3 +152,8 @@ class JWTClaimsRegistry(ClaimsRegistry):
 def _validate_numeric_time(s: int) -> bool:
     # JSON true and false are not numbers (bool is a subclass of int)
     return isinstance(s, (int, float)) and not isinstance(s, bool)
+
+
+def _same_value(value: Any, requested: Any) -> bool:
+    # JSON true and false are not the numbers 1 and 0
+    return bool(value == requested) and isinstance(value, bool) == isinstance(requested, bool)
